@@ -253,7 +253,7 @@ def prod_inputs(rng, tier):
     pats = [[FE, FD], [FE], [FD], [FE, FE, FD], [FE, FD, FE, FD]]
     for off in range(-3, 3):
         for pat in (pats if tier != "quick" else pats[:3]):
-            buf = _filler(L1P + 40, rng)
+            buf = _filler(L1P + rng.choice([40, 40, 1500, 3000]), rng)   # (some long enough for "large piece" paths)
             _plant(buf, b1 + off, pat)
             out.append(buf)
     offs2 = range(-3, 3) if tier != "quick" else [-2, -1, 0]
@@ -409,6 +409,12 @@ def run_prod(res, work, tier, seed):
         for m0 in ("eof", "borrow", "copy"):
             scripted.append((inp, [{"ev": "feed", "m": "copy", "n": pre_n + 1}, {"ev": "feed", "m": m0, "n": 0},
                                    {"ev": "feed", "m": "borrow", "n": -1}, {"ev": "finish"}]))
+    # more than a thousand borrowed slices in flight: 700 runs of 300 bytes separated by stuff sequences, never drained
+    inp = []
+    for _ in range(700):
+        inp += _filler(300, rng) + [FE, FD]
+    scripted.append((inp, [{"ev": "feed", "m": "borrow", "n": -1}, {"ev": "finish"}]))
+    dec_scripts[len(scripted) - 1] = [{"ev": "feed", "m": "borrow", "n": -1}, {"ev": "finish"}]
     for n in (3000, 200, 6000):
         inp = _filler(n, rng)
         scripted.append((inp, [{"ev": "feed", "m": "split", "n": -1}, {"ev": "drain", "mode": "read", "n": 10 ** 6}, {"ev": "finish"}]))
